@@ -502,3 +502,47 @@ Definition inverse_tag (t : dtag) : dtag :=
   | t => t
   end.
 Definition comment_family (t : dtag) : dtag := match t with TgRemoveTableComment => TgAddTableComment | t => t end.
+
+(* ------------------------------------------------------------------ autogenerate: what compare.py captures for a CHANGED object
+   (same name on both sides).  `old` is the object reflected from the database, `new` the one of the metadata: the drop /
+   existing_ half of what is emitted is built from old, the add / modify_ half from new, so that the reversal re-creates
+   the database's object. *)
+Inductive change :=
+| ChUnique (old new : constr)                               (* _compare_indexes_and_uniques.obj_changed, unique constraint *)
+| ChIndex (old new : index)                                 (* _compare_indexes_and_uniques.obj_changed, index *)
+| ChForeignKey (old new : constr)                           (* _compare_foreign_keys: removed signature, then added signature *)
+| ChTableComment (old new : option str)                     (* _compare_table_comment *)
+| ChColumn (old new : column) (type_differs default_differs : bool).
+    (* _compare_columns with _compare_nullable/_compare_type/_compare_server_default/_compare_column_comment; the verdicts of
+       impl.compare_type and compare_server_default are inputs *)
+
+Definition is_none {A} (o : option A) : bool := match o with None => true | Some _ => false end.
+Definition capture_column (t : str) (s : option str) (old new : column) (ty_diff sd_diff : bool) : list op :=
+  let both_sd_none := is_none (c_default old) && is_none (c_default new) in
+  let both_cm_none := is_none (c_comment old) && is_none (c_comment new) in
+  let cm_diff := negb both_cm_none && negb (optstr_eqb (c_comment old) (c_comment new)) in
+  let nl_diff := negb (Bool.eqb (c_nullable old) (c_nullable new)) in
+  let sd_diff := negb both_sd_none && sd_diff in
+  let a := mkAC t (c_name old) s (Some (c_type old)) (if both_sd_none then Unset else SetTo (c_default old))
+                (Some (c_nullable old)) (c_comment old)
+                (if nl_diff then Some (c_nullable new) else None)
+                (if cm_diff then SetTo (c_comment new) else Unset)
+                (if sd_diff then SetTo (c_default new) else Unset)
+                None (if ty_diff then Some (c_type new) else None) 0%N in
+  if nl_diff || cm_diff || sd_diff || ty_diff then [AlterColumnOp a] else [].       (* AlterColumnOp.has_changes() *)
+
+Definition capture (t : str) (s : option str) (ch : change) : list op :=
+  match ch with
+  | ChUnique old new | ChForeignKey old new => [drop_from_constraint old; AddConstraintOp (from_constraint new)]
+  | ChIndex old new => [drop_from_index old; CreateIndexOp (from_index new)]
+  | ChTableComment old new =>
+      match old, new with
+      | None, None => []
+      | Some _, None => [DropTableCommentOp t old s]
+      | _, _ => if optstr_eqb old new then [] else [CreateTableCommentOp t new old s]
+      end
+  | ChColumn old new ty_diff sd_diff => capture_column t s old new ty_diff sd_diff
+  end.
+(* the UpgradeOps content _compare_tables produces for one existing table with that one change *)
+Definition capture_ops (t : str) (s : option str) (ch : change) : list top :=
+  match capture t s ch with [] => [] | l => [ModifyTableOps t s l] end.
